@@ -16,6 +16,7 @@ CONSTANTS
   MaxDepth = 1000
   MaxOps = 100000
   WithDrop = TRUE
+  RemovedMayBeSkipped = FALSE
   Probes = 0
   D = 0
 INIT TrInit
